@@ -171,27 +171,36 @@ _FSIZE = {}
 
 
 def _probe_colander_sizes(r):
-    """(outside the audited run) the size of the largest binary file the strain writes, from a run in a scratch copy"""
+    """(outside the audited run) an input whose strained binary files are larger than every header the strain writes, and
+    the size of the largest of them, from runs in a scratch copy"""
     import glob, tempfile
-    d = tempfile.mkdtemp(prefix="c13probe_")
-    try:
-        shutil.copytree(os.path.join(r, "plt00010"), os.path.join(d, "plt00010"))
-        from ..common import chdir
-        with chdir(d):
-            tools.colander("plt00010", "out", ["temp", "density"])
-        _FSIZE[r] = max(os.path.getsize(p) for p in glob.glob(os.path.join(d, "out", "Level_*", "Cell_D*")))
-    finally:
-        shutil.rmtree(d, ignore_errors=True)
+    for name in ("plt00010", "plt00020", "plt00040"):
+        d = tempfile.mkdtemp(prefix="c13probe_")
+        try:
+            shutil.copytree(os.path.join(r, name), os.path.join(d, name))
+            with chdir(d), quiet(), pools.controlled():
+                tools.colander(name, "out", ["all"])
+            big = max(os.path.getsize(p) for p in glob.glob(os.path.join(d, "out", "Level_*", "Cell_D*")))
+            hdr = max(os.path.getsize(p) for p in glob.glob(os.path.join(d, "out", "Level_*", "Cell_H")) + [os.path.join(d, "out", "Header")])
+            if big - 8 > hdr:
+                _FSIZE[r] = (name, big)
+                return
+        finally:
+            shutil.rmtree(d, ignore_errors=True)
+    _FSIZE[r] = None
 
 
 def _colander_file_size_limit(r):
-    """colander under a file-size limit (quota, `ulimit -f`) that the last write of its largest binary file crosses: the
+    """colander under a file-size limit (quota, `ulimit -f`) that only the last write of its largest binary file crosses: the
     operating system refuses the write (EFBIG) or performs it in part - either way the tool must not return normally"""
     import resource
+    if _FSIZE.get(r) is None:
+        raise OSError("no input whose binary files outgrow the headers: nothing to try")
+    name, big = _FSIZE[r]
     old = resource.getrlimit(resource.RLIMIT_FSIZE)
-    resource.setrlimit(resource.RLIMIT_FSIZE, (_FSIZE[r] - 8, old[1]))
+    resource.setrlimit(resource.RLIMIT_FSIZE, (big - 8, old[1]))
     try:
-        tools.colander("plt00010", "out_col", ["temp", "density"])
+        tools.colander(name, "out_col", ["all"])
     finally:
         resource.setrlimit(resource.RLIMIT_FSIZE, old)
 
